@@ -27,7 +27,7 @@ import rt      # noqa: E402  pylint: disable=wrong-import-position
 import gen     # noqa: E402  pylint: disable=wrong-import-position
 
 HEADER = """From Coq Require Import String.
-From PV Require Import C03.Names C03.Decls.
+From PV Require Import C03.Names C03.Decls C03.Iface.
 Open Scope string_scope. Open Scope list_scope.
 Definition agrees_write (c : (list string * list sym * list (list sym)) * option (list string)) : bool :=
   match c with
@@ -40,9 +40,10 @@ Definition agrees_write (c : (list string * list sym * list (list sym)) * option
 Inductive case :=
 | CD (c : list sym * option (list nat))
 | CW (c : (list string * list sym * list (list sym)) * option (list string))
-| CR (c : list sym * list nat).
+| CR (c : list sym * list nat)
+| CI (c : iface * list stmt * iface).
 Definition agrees (c : case) : bool :=
-  match c with CD x => agrees_decls x | CW x => agrees_write x | CR x => agrees_reread x end."""
+  match c with CD x => agrees_decls x | CW x => agrees_write x | CR x => agrees_reread x | CI x => agrees_iface x end."""
 
 WHAT = {
     "gen_access_stmts/name-order-follows-table-order":
@@ -185,6 +186,36 @@ def reread_cases(w1, p2):
     return cases
 
 
+def iface_cases(p1, w1, p2):
+    """(interface as read, statements the real writer emits for it, interface after re-reading)."""
+    import re
+    from psyclone.psyir.nodes import ScopingNode
+    from psyclone.psyir.symbols import GenericInterfaceSymbol
+    from psyclone.psyir.backend.fortran import FortranWriter
+
+    def enc_iface(sym):
+        return core.coq_list("(%s, %s)" % (core.coq_str(i.symbol.name.lower()), "PModule" if i.from_container else "PPlain")
+                             for i in sym.routines)
+    second = {}
+    for sc in p2.walk(ScopingNode):
+        for sym in sc.symbol_table.symbols:
+            if isinstance(sym, GenericInterfaceSymbol):
+                second[sym.name.lower()] = sym
+    out = []
+    for sc in p1.walk(ScopingNode):
+        for sym in sc.symbol_table.symbols:
+            if isinstance(sym, GenericInterfaceSymbol) and sym.name.lower() in second:
+                stmts = []
+                for ln in FortranWriter().gen_interfacedecl(sym).split("\n"):
+                    m = re.match(r"\s*(module\s+)?procedure\s*::\s*(.*)$", ln, re.I)
+                    if m:
+                        stmts.append("(%s, %s)" % ("PModule" if m.group(1) else "PPlain",
+                                                   core.coq_list(core.coq_str(x.strip().lower()) for x in m.group(2).split(","))))
+                out.append(("(%s, %s, %s)" % (enc_iface(sym), core.coq_list(stmts), enc_iface(second[sym.name.lower()])),
+                            {"interface": sym.name, "written": FortranWriter().gen_interfacedecl(sym)}))
+    return out
+
+
 def run(ctx):
     ctx.cov["rule"] = (
         "round trips w1=W(p), w2=W(R(w1)) on: Fortran files of tests/test_files + examples accepted by reader and "
@@ -222,6 +253,7 @@ def run(ctx):
     ctx.log("witnesses done")
     # ---- (ii.a) generated sources
     rr_cases = []
+    if_cases = []
     nsrc = ctx.pick(30, 600)
     for i in range(nsrc):
         src, feats = gen.gen_source(rng, i)
@@ -230,6 +262,11 @@ def run(ctx):
         res = rt.roundtrip(src=src)
         held = v.handle(res, "gen-source:%d" % i, src)
         ctx.count(("src", src), held)
+        if held and "w1" in res:
+            try:
+                if_cases += iface_cases(rt.read_text(src), res["w1"], rt.read_text(res["w1"]))
+            except Exception as e:      # pylint: disable=broad-except
+                ctx.hist("iface_encoder_skipped", type(e).__name__)
         if held and len(rr_cases) < ctx.pick(150, 1500):
             try:
                 rr_cases += reread_cases(res["w1"], rt.read_text(res["w1"]))
@@ -328,6 +365,9 @@ def run(ctx):
             ctx.hist("gen_decls", "VisitorError:" + str(e)[:40])
         gd_cases.append("(%s, %s)" % (gen.coq_table(syms), obs))
         gd_specs.append(spec)
+        cats_by = {e["name"]: e["cat"] for e in spec}
+        ctx.hist("array_constants_with_local_kind",
+                 sum(1 for e in spec if e["cat"] == "const" and e["shape"] and e["kind"] and cats_by.get(e["kind"]) == "const"))
         nconst = sum(1 for e in spec if e["cat"] == "const")
         ctx.hist("table_consts", nconst)
         ctx.count(("table", repr(spec)), nconst >= 2)
@@ -342,13 +382,17 @@ def run(ctx):
 
     ctx.log("file corpus done")
     # ---- model evaluation
-    allc = ["CD " + c for c in gd_cases] + ["CW " + c for c in wr_cases] + ["CR " + c for c, _ in rr_cases]
+    allc = ["CD " + c for c in gd_cases] + ["CW " + c for c in wr_cases] + ["CR " + c for c, _ in rr_cases] \
+        + ["CI " + c for c, _ in if_cases]
     bad = ctx.coq_eval_failing(HEADER, "case", "agrees", allc, shard=ctx.pick(4000, 2500))
     n1, n2 = len(gd_cases), len(gd_cases) + len(wr_cases)
     bad_gd = [i for i in bad if i < n1]
     bad_wr = [i - n1 for i in bad if n1 <= i < n2]
-    bad_rr = [i - n2 for i in bad if i >= n2]
-    ctx.cov["disagreements_checked"] = len(bad_gd) + len(bad_wr) + len(bad_rr)
+    n3 = n2 + len(rr_cases)
+    bad_rr = [i - n2 for i in bad if n2 <= i < n3]
+    bad_if = [i - n3 for i in bad if i >= n3]
+    ctx.notes["interface_cases"] = len(if_cases)
+    ctx.cov["disagreements_checked"] = len(bad_gd) + len(bad_wr) + len(bad_rr) + len(bad_if)
     ctx.notes["model_cases"] = {"gen_decls": len(gd_cases), "scope_merge": len(wr_cases), "reread": len(rr_cases)}
     ctx.log("round trips: failures=%d; model cases gen_decls=%d (bad %d) merge=%d (bad %d) reread=%d (bad %d)"
             % (v.fail, len(gd_cases), len(bad_gd), len(wr_cases), len(bad_wr), len(rr_cases), len(bad_rr)))
@@ -375,7 +419,7 @@ def run(ctx):
                                "replay": "props/C03/gen.py: build_table(spec); Routine.create('w', table, []); rt.roundtrip(tree=...)"})
 
     # ---- verdict on proof / correspondence
-    if (not ok or bad_gd or bad_wr or bad_rr) and not found:
+    if (not ok or bad_gd or bad_wr or bad_rr or bad_if) and not found:
         first = None
         if bad_gd:
             i = bad_gd[0]
@@ -387,6 +431,10 @@ def run(ctx):
             first = {"relation": "C03.Decls.write_decls = declared names of the routine written by routine_node",
                      "case": wr_cases[i], "impl": wr_info[i],
                      "model": ctx.coq_eval_show(HEADER, ["option_map (map s_name) (let '(o, r, i) := fst %s in write_decls o r i)" % wr_cases[i]])}
+        elif bad_if:
+            i = bad_if[0]
+            first = {"relation": "C03.Iface.write_iface / read_iface = gen_interfacedecl / _process_interface_block",
+                     "case": if_cases[i][0], "impl": if_cases[i][1]}
         elif bad_rr:
             i = bad_rr[0]
             first = {"relation": "C03.Decls.reread = symbol-table order built by process_declarations",
@@ -395,5 +443,6 @@ def run(ctx):
             ctx.violation({"property": "C03",
                            "broken": "proof obligations of Properties/C03.v" if not ok else "model correspondence",
                            "proof_report": rep if not ok else None, "first_differing_case": first,
-                           "n_differing": {"gen_decls": len(bad_gd), "scope_merge": len(bad_wr), "reread": len(bad_rr)}},
+                           "n_differing": {"gen_decls": len(bad_gd), "scope_merge": len(bad_wr), "reread": len(bad_rr),
+                                           "interfaces": len(bad_if)}},
                           no_input=True)
